@@ -220,7 +220,7 @@ def corruption_states(final, rng, quick, base, keep_fn):
     return out
 
 
-def probe_states(uniq, base, reg, wd, jobs, force_r=()):
+def probe_states(uniq, base, reg, wd, jobs, force_r=(), no_doctor=()):
     """Runs the real recovery on each materialised directory; returns digest -> result."""
     keys = list(uniq)
     chunks = [keys[i::jobs] for i in range(jobs) if keys[i::jobs]]
@@ -230,7 +230,7 @@ def probe_states(uniq, base, reg, wd, jobs, force_r=()):
         lst = os.path.join(wd, "list%d.txt" % ci)
         with open(lst, "w") as f:
             for k, dg in enumerate(ch):
-                flags = ("d" if (k % 3 == 0) else "") + ("r" if (k % 3 == 1 or dg in force_r) else "")
+                flags = ("d" if (k % 3 == 0 and dg not in no_doctor) else "") + ("r" if (k % 3 == 1 or dg in force_r) else "")
                 f.write("%s\t%s\t%s\n" % (dg, os.path.join(base, dg), flags))
         outp = os.path.join(wd, "probe%d.ndjson" % ci)
         remaining = list(ch)
@@ -247,12 +247,31 @@ def probe_states(uniq, base, reg, wd, jobs, force_r=()):
                     begun = None
             if p.returncode == 0:
                 break
-            # the probe process died (hang watchdog / abort): attribute to the state it was working on, go on with the rest
+            # the probe process died (hang watchdog / abort) while working on `begun`.  Wall-clock limits are load
+            # sensitive: the state is probed once more, alone, with a generous limit, before it is called a hang.
             if begun is None:
                 raise ToolError("disk-probe failed: " + p.stderr[-1500:])
-            res[begun] = {"tag": begun, "stage": "done", "has_file": True, "res": {"ok": False, "panic": "hang-or-abort rc=%d" % p.returncode},
-                          "close": {"ok": True}, "second": {"open": {"ok": False}}, "verify": {"ok": False}, "timeline": {"ok": False},
-                          "second_same": False, "obs": {}}
+            one_lst = os.path.join(wd, "retry%d.txt" % ci)
+            one_out = os.path.join(wd, "retry%d.ndjson" % ci)
+            flags_of = {}
+            for ln in open(lst):
+                parts = ln.rstrip("\n").split("\t")
+                flags_of[parts[0]] = parts[2] if len(parts) > 2 else ""
+            with open(one_lst, "w") as f:
+                f.write("%s\t%s\t%s\n" % (begun, os.path.join(base, begun), flags_of.get(begun, "")))
+            p2 = run_harness(["disk-probe", reg, one_lst, one_out], timeout=3600, env={"MVH_WATCHDOG_S": "240"})
+            got = None
+            if p2.returncode == 0:
+                for ln in open(one_out):
+                    e = json.loads(ln)
+                    if e.get("stage") != "begin":
+                        got = e
+            if got is not None:
+                res[begun] = got
+            else:
+                res[begun] = {"tag": begun, "stage": "done", "has_file": True, "res": {"ok": False, "panic": "hang-or-abort rc=%d (twice; 240 s alone)" % p2.returncode},
+                              "close": {"ok": True}, "second": {"open": {"ok": False}}, "verify": {"ok": False}, "timeline": {"ok": False},
+                              "second_same": False, "obs": {}}
             remaining = remaining[remaining.index(begun) + 1:]
             with open(lst, "w") as f:
                 for dg in remaining:
@@ -302,7 +321,8 @@ def engine(tier, only=None):
             # C20: corruptions of the committed, closed file this history ends with
             corr = corruption_states(enumerate_states.final, rng, quick, sbase, enumerate_states.keep)
             stats["corruptions"] = stats.get("corruptions", 0) + len(corr)
-        results = probe_states(uniq, sbase, reg, d, jobs, force_r=set(c[3] for c in corr))
+        slow = set(c[3] for c in corr if c[0] in ("header.wal_size", "header.wal_offset")) if quick else set()
+        results = probe_states(uniq, sbase, reg, d, jobs, force_r=set(c[3] for c in corr), no_doctor=slow)
         shutil.rmtree(sbase, ignore_errors=True)
         ndist = len(uniq)
         stats["file_ops"] += nops
